@@ -1092,7 +1092,23 @@ class MultiTestResult(TestResult):
     def __init__(self, *results):
         # Setup _results first, as the base class __init__ assigns to failfast.
         self._results = list(map(ExtendedToOriginalDecorator, results))
-        super().__init__()
+        self._keeping_results_failfast(super().__init__)
+
+    # Whether assignments to failfast are passed on to the wrapped results.
+    _dispatch_failfast = True
+
+    def _keeping_results_failfast(self, function):
+        """Call function without letting it change the results' failfast.
+
+        The base class assigns to failfast while (re)initialising itself, and
+        assignments to our failfast are dispatched to the results: without
+        this a failfast set on a result before it was wrapped is lost.
+        """
+        self._dispatch_failfast = False
+        try:
+            return function()
+        finally:
+            self._dispatch_failfast = True
 
     def __repr__(self):
         return "<{} ({})>".format(
@@ -1108,7 +1124,8 @@ class MultiTestResult(TestResult):
         return getattr(self._results[0], "failfast", False)
 
     def _set_failfast(self, value):
-        self._dispatch("__setattr__", "failfast", value)
+        if self._dispatch_failfast:
+            self._dispatch("__setattr__", "failfast", value)
 
     failfast = property(_get_failfast, _set_failfast)
 
@@ -1151,7 +1168,7 @@ class MultiTestResult(TestResult):
         return self._dispatch("addUnexpectedSuccess", test, details=details)
 
     def startTestRun(self):
-        super().startTestRun()
+        self._keeping_results_failfast(super().startTestRun)
         return self._dispatch("startTestRun")
 
     def stopTestRun(self):
